@@ -6,6 +6,7 @@ macro_rules! two_digit_kernel {
     ($harness:ident, $hook:ident, $reference:ident) => {
         #[kani::proof]
         #[kani::unwind(5)]
+        #[kani::stub(core::str::from_utf8, stub_from_utf8)]
         pub fn $harness() {
             let (buf, len) = any_ascii::<3>();
             let s = &buf[..len];
@@ -37,6 +38,7 @@ two_digit_kernel!(c12_date_mday_3, date_mday, v_date_mday);
 /// shown panic-free by Kani's default checks)
 #[kani::proof]
 #[kani::unwind(7)]
+#[kani::stub(core::str::from_utf8, stub_from_utf8)]
 pub fn c12_date_fullyear_u5() {
     let (buf, len) = any_utf8::<5>();
     let s = &buf[..len];
@@ -56,6 +58,7 @@ pub fn c12_date_fullyear_u5() {
 /// time-delim = "T" / "t" / %x20
 #[kani::proof]
 #[kani::unwind(4)]
+#[kani::stub(core::str::from_utf8, stub_from_utf8)]
 pub fn c12_time_delim_u2() {
     let (buf, len) = any_utf8::<2>();
     let s = &buf[..len];
@@ -76,6 +79,7 @@ pub fn c12_time_delim_u2() {
 /// truncation to nanoseconds
 #[kani::proof]
 #[kani::unwind(15)]
+#[kani::stub(core::str::from_utf8, stub_from_utf8)]
 pub fn c12_time_secfrac_shape13() {
     let mut buf = [0u8; 13];
     buf[0] = b'.';
@@ -121,6 +125,7 @@ fn eq_offset(a: toml_datetime::Offset, b: ROffset) -> bool {
 /// time-offset, free bytes: all ASCII strings <= 3 bytes (Z / z / truncated numoffsets)
 #[kani::proof]
 #[kani::unwind(5)]
+#[kani::stub(core::str::from_utf8, stub_from_utf8)]
 pub fn c12_time_offset_a3() {
     let (buf, len) = any_ascii::<3>();
     let s = &buf[..len];
@@ -145,6 +150,7 @@ pub fn c12_time_offset_a3() {
 /// time-offset, shape `[+-]dd:dd` with a free first byte and a free separator
 #[kani::proof]
 #[kani::unwind(9)]
+#[kani::stub(core::str::from_utf8, stub_from_utf8)]
 pub fn c12_time_offset_shape6() {
     let mut buf = [0u8; 6];
     let first: u8 = kani::any();
